@@ -153,6 +153,14 @@ theorem coinswap_guards_pinned : Irismod.Gen.PureCoinswap.guards =
      "msgServer.SwapCoin: m.k.blockedAddrs[msg.Output.Address]",
      "msgServer.SwapCoin: err := m.k.Swap(ctx, msg); err != nil"] := rfl
 
+/-- every statement of these functions executed for its effect — a call whose result is dropped (store and bank
+writes, queue moves, hooks) or a write to a record field — with its nesting depth, in source order: a write that is
+dropped, duplicated, reordered or moved into or out of a branch breaks this -/
+theorem coinswap_effects_pinned : Irismod.Gen.PureCoinswap.effects =
+    ["AddUnilateral: d0 squareBigInt.Sqrt(square.BigInt())",
+     "Keeper.CreatePool: d0 k.setSequence(ctx, sequence+1)",
+     "Keeper.CreatePool: d0 k.setPool(ctx, pool)"] := rfl
+
 private theorem oneSubFee (fee : Nat) (hfee : fee ≤ D) :
     Dec_Sub LegacyOneDec ⟨(fee : Int)⟩ = some ⟨((D - fee : Nat) : Int)⟩ := by
   have hD : (1000000000000000000 : Int) - (fee : Int) = ((D - fee : Nat) : Int) := by
